@@ -114,7 +114,7 @@ verus! {
             forall|kk: int| 0 < kk <= __d.pos() ==> #[trigger] len_after(src, e0, kk) <= LIMIT_NORM(),
             mono(target_mapping@), bounded(target_mapping@, sm[n] as int),
             forall|i: int| 0 <= i < target_mapping@.len() ==> target_mapping@[i] <= sm[start as int],
-            unrep(src, sm, e0, target_mapping@, __d.pos(), false),
+            unrep(src, sm, e0, target_mapping@, __d.pos(), false), replimg(src, sm, e0, target_mapping@, __d.pos()),
         decreases e0.len() - __d.pos()
 //@  before target.push_str(str_slice(source, start, edit.what.start));
         let ghost k = __d.pos() - 1;
